@@ -156,6 +156,9 @@ impl Captured {
         if ops.iter().any(|o| o.tag() == DiffTag::Replace) {
             engine::witness("paths_with_replace_op");
         }
+        if matches!(s.layout, Layout::Blocks { .. }) {
+            engine::witness("block_structured_paths");
+        }
         let chk = OpsCheck {
             exact_indices: self.0 == Which::C11,
             normal_form: self.0 == Which::C09,
@@ -319,6 +322,18 @@ impl Prop for Captured {
                 }
             }
         }
+        // block-structured inputs through capture_diff
+        let bl: Vec<Layout> = match tier {
+            Tier::Quick => block_layouts(4, 2),
+            Tier::Thorough => block_layouts(4, 1).into_iter().chain(block_layouts(5, 2)).chain(block_layouts(4, 3)).collect(),
+        };
+        let algs2: Vec<Algorithm> = if self.0 == Which::C03 { vec![Algorithm::Myers, Algorithm::Lcs] } else { ALGS.to_vec() };
+        for alg in algs2 {
+            for layout in &bl {
+                let (n, m) = layout_lens(layout, 0, 0);
+                v.push(Shape { alg, n, m, layout: *layout, entry: CapEntry::CaptureDiff, clock: false });
+            }
+        }
         v
     }
 
@@ -385,7 +400,7 @@ impl Prop for Captured {
         Meta {
             functions,
             bounds: format!(
-                "{} x range lengths n,m in 0..={} (plus lopsided whole-slice inputs up to 6 (thorough 7) items a side with n+m<=9 quick / 11 thorough through capture_diff) x layouts {{whole slices, padded slices (1,1 / 2,1), offset lookups at (3,1)}} x entry points {}; symbolic items over an unbounded alphabet{}",
+                "{} x range lengths n,m in 0..={} (plus lopsided whole-slice inputs up to 6 (thorough 7) items a side with n+m<=9 quick / 11 thorough through capture_diff) x layouts {{whole slices, padded slices (1,1 / 2,1), offset lookups at (3,1)}} x entry points {}; symbolic items over an unbounded alphabet; plus block-structured inputs (up to 4 blocks of 2 items a side over 3 block types, thorough also block lengths 1, 3 and 5 blocks){}",
                 if self.0 == Which::C03 { "Myers and LCS" } else { "3 algorithms" },
                 max,
                 match self.0 {
